@@ -500,6 +500,10 @@ def run(ctx):
                    "place only by the validating method of their handler (add / add_region / add_master / add_slave); "
                    "they are bound only to an empty dict in __init__ or to a re-ordering of themselves", min_sites=12)
     _who_may_write(ctx)
+    ctx.rule("A7", "granted CSR pages lie inside the decoded `csr` bus region: the region spans 4 bytes per CSR word for all 2**address_width "
+                   "words, for every CSR data width (the handler's n_locs is computed from the same product)", min_sites=1)
+    from .c14 import csr_bus_window
+    csr_bus_window(ctx, "A7")
 
     # ================= A1: SoCBusHandler.add_region (histories interpreted on a model bus, see _add_region_table)
     fn = m.method("SoCBusHandler", "add_region")
